@@ -249,6 +249,9 @@ class Interp:
         self.ext_ids, self.addr_taken, self.base_tracked, self.copies, self.live_in = cache
         self.tracked = set(self.base_tracked)
         self.always_live = set()
+        self.arith_paths = set()     # paths whose += / -= constant updates are followed (counters would diverge)
+        self.cap = CAP
+        self.max_steps = 60000
 
     # ------------------------------------------------------------ precomputation
     def _precompute(self):
@@ -534,7 +537,7 @@ class Interp:
             p = path(strip(lhs))
             for s, (_, v) in self._seq([self._lhs_base(lhs), n.get("rhs")], st):
                 if n["op"] != "=":
-                    if n["op"] in ("+=", "-=") and p and v is not None and v.is_const():
+                    if n["op"] in ("+=", "-=") and p in self.arith_paths and v is not None and v.is_const():
                         v = av_shift(s.sigma.get(p), v.value() if n["op"] == "+=" else -v.value())
                     else:
                         v = None
@@ -788,7 +791,7 @@ class Interp:
             bid, st = work.pop()
             blk = fn.blocks[bid]
             steps += 1
-            if steps > 60000:
+            if steps > self.max_steps:
                 self.overflow = True
                 break
             if bid == fn.exit:
@@ -879,7 +882,7 @@ class Interp:
                     d = IN[sid]
                     if kk in d:
                         continue
-                    if len(d) >= CAP:
+                    if len(d) >= self.cap:
                         self.overflow = True
                         continue
                     d[kk] = s2
